@@ -353,7 +353,7 @@ int muggle_str_tol(const char *str, long *pval, int base)
 		}
 	}
 
-	if (*pval == LONG_MAX || *pval == LONG_MIN)
+	if ((*pval == LONG_MAX || *pval == LONG_MIN) && errno == ERANGE)
 	{
 		// out of range
 		return 0;
@@ -419,7 +419,7 @@ int muggle_str_toll(const char *str, long long *pval, int base)
 		}
 	}
 
-	if (*pval == LLONG_MAX || *pval == LLONG_MIN)
+	if ((*pval == LLONG_MAX || *pval == LLONG_MIN) && errno == ERANGE)
 	{
 		// out of range
 		return 0;
